@@ -2,8 +2,8 @@ package rules
 
 import (
 	"go/token"
-	"strings"
 	"golang.org/x/tools/go/ssa"
+	"strings"
 
 	"kverif/internal/an"
 )
